@@ -190,7 +190,7 @@ def Text_decompressToken : Prop := text_decompressToken = expectedText_decompres
 def expectedText_deriveBlockKey : List String := ["sum := sha256.Sum256([]byte(\"traefikoidc-cookie-encryption:\" + encryptionKey))", "return sum[:]"]
 def Text_deriveBlockKey : Prop := text_deriveBlockKey = expectedText_deriveBlockKey
 
-def expectedText_NewSessionManager : List String := ["if len(encryptionKey) < minEncryptionKeyLength { return nil, fmt.Errorf(\"encryption key must be at least %d bytes long\", minEncryptionKeyLength) }", "sm := &SessionManager{ store: sessions.NewCookieStore([]byte(encryptionKey), deriveBlockKey(encryptionKey)), forceHTTPS: forceHTTPS, logger: logger, }", "sm.sessionPool.New = func() interface{} { return &SessionData{ manager: sm, accessTokenChunks: make(map[int]*sessions.Session), refreshTokenChunks: make(map[int]*sessions.Session), refreshMutex: sync.Mutex{}, } }", "return sm, nil"]
+def expectedText_NewSessionManager : List String := ["if len(encryptionKey) < minEncryptionKeyLength { return nil, fmt.Errorf(\"encryption key must be at least %d bytes long\", minEncryptionKeyLength) }", "store := sessions.NewCookieStore([]byte(encryptionKey), deriveBlockKey(encryptionKey))", "for _, codec := range store.Codecs { if sc, ok := codec.(*securecookie.SecureCookie); ok { sc.MaxLength(maxCookieValueLength) } }", "sm := &SessionManager{ store: store, forceHTTPS: forceHTTPS, logger: logger, }", "sm.sessionPool.New = func() interface{} { return &SessionData{ manager: sm, accessTokenChunks: make(map[int]*sessions.Session), refreshTokenChunks: make(map[int]*sessions.Session), refreshMutex: sync.Mutex{}, } }", "return sm, nil"]
 def Text_NewSessionManager : Prop := text_NewSessionManager = expectedText_NewSessionManager
 
 def expectedText_SessionManager_getSessionOptions : List String := ["return &sessions.Options{ HttpOnly: true, Secure: isSecure || sm.forceHTTPS, SameSite: http.SameSiteLaxMode, MaxAge: int(absoluteSessionTimeout.Seconds()), Path: \"/\", }"]
